@@ -129,14 +129,14 @@ static long long res360(mpfr_ptr v) {
 }
 
 // ------------------------------------------------------------------ trig reference (exact reduction + MPFR)
-struct TrigRef { M s, c, t, r; int q4 = 0, rc = 0; bool fin = false; TrigRef() : r(128) {} };
+struct TrigRef { M s, c, t, r; int q4 = 0, rc = 0; bool fin = false; TrigRef() : r(BIG) {} };
 static M& pi180() { static M p(MID); static bool done = false;
   if (!done) { mpfr_const_pi(p, MPFR_RNDN); mpfr_div_ui(p, p, 180, MPFR_RNDN); done = true; } return p; }
-template<class T> static void trigref(T x, TrigRef& R) {
-  R.fin = std::isfinite(x);
+static void trigref_m(mpfr_ptr mx, TrigRef& R) {
+  R.fin = mpfr_number_p(mx) != 0;
   if (!R.fin) { mpfr_set_nan(R.s); mpfr_set_nan(R.c); mpfr_set_nan(R.t); mpfr_set_nan(R.r); R.q4 = 0; R.rc = 0; return; }
-  M mx(128), n90(16), rad(MID), sr(MID), cr(MID), tr(MID);
-  mset(mx, x); mpfr_set_ui(n90, 90, MPFR_RNDN);
+  M n90(16), rad(MID), sr(MID), cr(MID), tr(MID);
+  mpfr_set_ui(n90, 90, MPFR_RNDN);
   long q = 0; mpfr_remquo(R.r, &q, mx, n90, MPFR_RNDN);        // exact: |r| <= 45, r a multiple of ulp(x)
   R.q4 = int(((q % 4) + 4) % 4);
   R.rc = mpfr_zero_p(R.r) ? 1 : mpfr_cmpabs_ui(R.r, 30) == 0 ? 30 : mpfr_cmpabs_ui(R.r, 45) == 0 ? 45 : 0;
@@ -148,6 +148,11 @@ template<class T> static void trigref(T x, TrigRef& R) {
   case 2: mpfr_neg(R.s, sr, MPFR_RNDN); mpfr_neg(R.c, cr, MPFR_RNDN); mpfr_set(R.t, tr, MPFR_RNDN); break;
   default: mpfr_neg(R.s, cr, MPFR_RNDN); mpfr_set(R.c, sr, MPFR_RNDN); mpfr_si_div(R.t, -1, tr, MPFR_RNDN); break;
   }
+}
+template<class T> static void trigref(T x, TrigRef& R) {
+  M mx(128);
+  if (std::isfinite(x)) mset(mx, x); else mpfr_set_nan(mx);
+  trigref_m(mx, R);
 }
 static M& deg() { static M p(MID); static bool done = false;
   if (!done) { mpfr_const_pi(p, MPFR_RNDN); mpfr_ui_div(p, 180, p, MPFR_RNDN); done = true; } return p; }
@@ -227,6 +232,16 @@ template<class T> static void do_two(T a, T b, const char* src) {
       dh = e == 0 ? -1 : mpfr_cmp(e2, g) < 0 ? -1 : mpfr_cmp(e2, g) > 0 ? 1 : 0;
       e26 = cmp3<T>(fabs(e), ldexp(T(1), -26));
     }
+    // sincosde(d, e): sine and cosine of the exact difference z = d + e
+    { long long dse = CLIP, dce = CLIP; int dg = 2;
+      if (fin && std::isfinite(d) && std::isfinite(e)) {
+        T ss, cc; Math::sincosde(d, e, ss, cc);
+        TrigRef R; trigref_m(z, R);
+        M lim(16); mpfr_set_ui(lim, 1, MPFR_RNDN); mpfr_mul_2si(lim, lim, -3, MPFR_RNDN);
+        dg = mpfr_cmpabs(R.r, lim) < 0 ? -1 : mpfr_cmpabs(R.r, lim) > 0 ? 1 : 0;
+        dse = mulp(ss, R.s); dce = mulp(cc, R.c);
+      }
+      r.i("dse", dse).i("dce", dce).i("dg", dg); }
     volatile T yx = b - a;
     r.raw("d", numj(d)).raw("de", numj(e)).raw("d1", numj(d1)).i("dk", dk)
       .i("d180", std::isnan(d) ? 2 : cmp3<T>(fabs(d), T(180))).i("de180", de180).i("dh", dh).i("e26", e26).i("dez", dez)
